@@ -81,8 +81,11 @@ Init ==
 
 -----------------------------------------------------------------------------
 (* helpers *)
-Act(h, a, op, pk, res) == act' = [n |-> act.n + 1, h |-> h, a |-> a, op |-> op, pk |-> pk, res |-> res, arg |-> <<>>]
-ActArg(h, a, op, arg) == act' = [n |-> act.n + 1, h |-> h, a |-> a, op |-> op, pk |-> "", res |-> "", arg |-> arg]
+(* the history variable is frozen in liveness configurations (Record <- NoRecord): TLC's liveness checking does not go with a VIEW *)
+Record == TRUE
+NoRecord == FALSE
+Act(h, a, op, pk, res) == act' = IF Record THEN [n |-> act.n + 1, h |-> h, a |-> a, op |-> op, pk |-> pk, res |-> res, arg |-> <<>>] ELSE act
+ActArg(h, a, op, arg) == act' = IF Record THEN [n |-> act.n + 1, h |-> h, a |-> a, op |-> op, pk |-> "", res |-> "", arg |-> arg] ELSE act
 Internal(h, a) == Act(h, a, "internal", "", "")
 Go(h, p, l) == pc' = [pc EXCEPT ![h] = p] /\ loc' = [loc EXCEPT ![h] = l]
 KeepMem == UNCHANGED <<stack, closedRd>>
@@ -619,6 +622,14 @@ Step(h) ==
 
 Next == \E h \in Handles : Step(h) \/ Crash(h)
 Spec == Init /\ [][Next]_vars
+
+(* Liveness.  Under weak fairness of every handle's next step, every call that was started returns (or its    *)
+(* handle is killed): no reload that retries for ever, no compaction or Clean that waits for a lock for ever.  *)
+(* The bounds are inside the actions (opsLeft, MaxIds), not a state constraint, so a non-progress cycle would   *)
+(* be found.  (C10: "a reload that races with a compaction either settles on a newer version or reports        *)
+(* failure"; C04: every call is acknowledged or fails.)                                                        *)
+FairSpec == Spec /\ \A h \in Handles : WF_vars(Step(h))
+C10_EveryCallReturns == \A h \in Handles : (pc[h] \notin {"idle", "crashed"}) ~> (pc[h] \in {"idle", "crashed"})
 
 -----------------------------------------------------------------------------
 (* Properties that need the implementation level *)
